@@ -155,6 +155,22 @@ theorem relocate_block {d D k : Nat} {bg : Option α} {g0 : Nat → Nat → Opti
     have : d ≤ i * d := Nat.le_mul_of_pos_left d hpos
     omega
 
+/-- After the relocation the columns to the right of every relocated block (where the zero block
+    of `blockdiag(P, Q)` goes) already hold the background in rows `< d`: they were either appended
+    by `conservativeResizeLike` or vacated by a swap that brought background in.  (So the statement
+    "Clean part of the matrix that should be zero" of the code is redundant with the swap-based
+    relocation; the model performs it all the same.) -/
+theorem relocate_right_of_block {d D k : Nat} {bg : Option α} {g0 : Nat → Nat → Option α}
+    (hD : d ≤ D) (hk : 1 ≤ k)
+    (h0 : ∀ r c, r < d → k * d ≤ c → c < k * D → g0 r c = bg)
+    (r i j : Nat) (hr : r < d) (hi : i < k) (hj1 : d ≤ j) (hj2 : j < D) :
+    relocate k d D g0 r (i * D + j) = bg := by
+  have inv := relInv_relocate hD hk (relInv_init d D k bg g0 h0)
+  apply inv.background r (i * D + j) hr (by omega) (radix_lt hi hj2)
+  intro i' j' _ hj' _ hh
+  obtain ⟨_, rfl⟩ := radix_unique hj2 (Nat.lt_of_lt_of_le hj' hD) hh
+  omega
+
 /-- Rows below the old blocks are not touched by the relocation. -/
 theorem relocate_lower {d D k : Nat} {bg : Option α} {g0 : Nat → Nat → Option α}
     (hD : d ≤ D) (hk : 1 ≤ k)
